@@ -17,9 +17,11 @@ package loadaware
 // Causal rules of the generated histories (what the real system can produce):
 //   - informer events of one pod arrive in version order; an event showing a binding (NodeName set)
 //     appears only after the scheduler reserved the pod on that node (or the pod is first seen
-//     already bound: initial list / other scheduler); a terminated pod stays terminated; labels and
-//     annotations of a pod never change after creation (label-only updates are ignored by the cache
-//     by design, so they are not generated); a (namespace,name) is re-used with a new UID only after
+//     already bound: initial list / other scheduler); a terminated pod stays terminated; annotations of a
+//     pod never change after creation; the koordinator priority-class / QoS labels change only on
+//     bound pods and only in an update that also changes spec or conditions (label-only updates are
+//     ignored by the cache by design, so they are not generated); one update may change any
+//     combination of resources, priority, conditions, phase and node; a (namespace,name) is re-used with a new UID only after
 //     the previous incarnation is completely gone (deleted and not reserved any more).
 //   - Reserve is issued only for a pod the informer shows as unbound; the object handed to Reserve is
 //     the scheduler's assumed pod (Spec.NodeName already set, as kube-scheduler's assume does);
